@@ -24,7 +24,9 @@ def gen_request(rnd, hi=65535):
             toks.append(("n", rnd.choice([1, hi, min(22, hi), min(80, hi), min(443, hi), min(135, hi), min(521, hi),
                                           min(15001, hi), rnd.randint(1, hi)])))
         elif r < 0.9:
-            a = rnd.choice([1, 20, min(1024, hi - 1), rnd.randint(1, hi - 1)])
+            # also ranges whose bounds have different digit counts (8-13, 95-100, 998-1003): text order != numeric order
+            a = rnd.choice([1, 20, min(1024, hi - 1), rnd.randint(1, hi - 1), min(8, hi - 1), min(9, hi - 1),
+                            min(95, hi - 1), min(99, hi - 1), min(998, hi - 1)])
             toks.append(("r", a, min(hi, a + rnd.choice([0, 1, 2, 5, 20]))))
         else:
             toks.append(("e",))
